@@ -230,7 +230,8 @@ def suite_evaluate(rng, tier, shard, nshards):
 # the functions as REGENERATED from the source (driver op `gen.chordseg`, lean/MirGen/ChordSeg.lean, translator part
 # `chordseg`) vs the real functions: the streams of the hand-model suites above re-targeted, plus small scopes
 
-GEN_FUNCTIONS = ("directional_hamming_distance", "overseg", "underseg", "seg", "merge_chord_intervals")
+GEN_FUNCTIONS = ("directional_hamming_distance", "overseg", "underseg", "seg", "merge_chord_intervals",
+                 "weighted_accuracy")
 
 
 def as_gen(c):
